@@ -34,6 +34,8 @@ var checks = map[string]*check{
 			// one end is a hand-written peer (another implementation of the wire protocol) that writes ids and acknowledgements
 			// in two pieces, 10 ms apart
 			{Name: "hand-written-peer", Kind: "explore", Scen: "mux_route", Inst: inst("rawpeer", "rawpeer"), Depths: depths([]int{1}, []int{1, 2}), Budget: budget(2*time.Minute, 10*time.Minute)},
+			// go-plugin's own RPCClient as host, 320 dials at once to a hand-written plugin on a stock yamux session that is slow to accept
+			{Name: "stock-yamux-peer", Kind: "explore", Scen: "mux_route", Inst: inst("backlog", "backlog"), Depths: depths([]int{0}, []int{0}), Budget: budget(3*time.Minute, 5*time.Minute)},
 			// two ids at once with fine-grained preemption (every function entry of go-plugin is a scheduling point)
 			{Name: "fine-grained", Kind: "explore", Scen: "mux_route", Inst: inst("fine", "fine"), Depths: depths([]int{2}, []int{2, 3}), Budget: budget(3*time.Minute, 20*time.Minute)},
 			// explicit ids: the same number outstanding in both directions at once, ids 0 / 2^31 / 2^32-1
